@@ -124,6 +124,36 @@ static long max_surf_gap(const Manifold& a, const Manifold& b) {
   return (long)std::min(1e15, std::ceil(std::sqrt(worst) * 1099511627776.0));
 }
 
+// original vertices whose position (bit pattern) is absent from the result: {all, those whose every
+// incident triangle in the input has an opposed twin (same three vertices, reversed) - a zero-volume fin}
+static std::pair<long, long> lost_vertices(const Manifold& base, const MeshFacts& fres) {
+  auto ib = impl_of(base);
+  std::set<std::array<int, 3>> tris;
+  auto canon = [](int a, int b, int c) {
+    std::array<int, 3> t{a, b, c};
+    while (t[0] > t[1] || t[0] > t[2]) std::rotate(t.begin(), t.begin() + 1, t.end());
+    return t;
+  };
+  const size_t nt = ib->NumTri();
+  for (size_t t = 0; t < nt; ++t)
+    tris.insert(canon(ib->halfedge_.Start(3 * t), ib->halfedge_.Start(3 * t + 1), ib->halfedge_.Start(3 * t + 2)));
+  long lost = 0, fin = 0;
+  for (size_t v = 0; v < ib->NumVert(); ++v) {
+    const vec3 p = ib->vertPos_[v];
+    std::array<uint64_t, 3> key{bits(p.x + 0.0), bits(p.y + 0.0), bits(p.z + 0.0)};
+    if (std::binary_search(fres.pos.begin(), fres.pos.end(), key)) continue;
+    ++lost;
+    bool allTwin = true;
+    for (size_t t = 0; t < nt; ++t) {
+      const int a = ib->halfedge_.Start(3 * t), b = ib->halfedge_.Start(3 * t + 1), c = ib->halfedge_.Start(3 * t + 2);
+      if (a != (int)v && b != (int)v && c != (int)v) continue;
+      if (!tris.count(canon(a, c, b))) allTwin = false;
+    }
+    if (allTwin) ++fin;
+  }
+  return {lost, fin};
+}
+
 static bool close_rel(double a, double b, double rel) {
   return std::fabs(a - b) <= rel * std::max(std::fabs(a), std::fabs(b)) + 1e-300;
 }
@@ -205,6 +235,12 @@ static void run_e2e(std::istringstream& in) {
   put(o, "ref0", f0.referenced); put(o, "man0", f0.manifold); put(o, "chi0", f0.chi);
   const bool tang = impl_of(base)->halfedgeTangent_.size() > 0;
   put(o, "tang", tang);
+  {
+    long nanTan = 0;
+    for (const vec4& t : impl_of(base)->halfedgeTangent_)
+      if (std::isnan(t.x) || std::isnan(t.y) || std::isnan(t.z) || std::isnan(t.w)) ++nanTan;
+    put(o, "nan_tan", nanTan);
+  }
   Manifold res;
   if (op == 0) res = base.Refine((int)a);
   else if (op == 1) res = base.RefineToLength(b / 1000.0);
@@ -267,6 +303,10 @@ static void run_e2e(std::istringstream& in) {
   put(o, "ref1", f1.referenced); put(o, "unref1", f1.unref); put(o, "man1", f1.manifold); put(o, "chi1", f1.chi);
   put(o, "finite1", f1.finite);
   put(o, "kept", sub_multiset(f0.pos, f1.pos));
+  {
+    auto lv = lost_vertices(base, f1);
+    put(o, "lost", lv.first); put(o, "lost_fin", lv.second);
+  }
   put(o, "surf40", tang || f1.nv > 20000 ? -1 : max_surf_gap(res, base));
   put(o, "vol_same", close_rel(f0.vol, f1.vol, 1e-10));
   put(o, "area_same", close_rel(f0.area, f1.area, 1e-10));
